@@ -557,11 +557,62 @@ func c16H3(r *Run) {
 		}
 		return ""
 	}
-	if len(sd.Blocks) != 1 {
-		r.Unk("C16.H3", "kmipserver.Server.Shutdown/order", sd.Pos(), "Shutdown is not straight-line code")
-		return
+	// the marker calls, in order, on every path from entry to a return (branches without markers, e.g. logging, are fine)
+	classify := func(call *ssa.Call) string {
+		id := callID(&call.Call)
+		switch {
+		case call.Call.IsInvoke() && call.Call.Method.Name() == "Close" && typeName(call.Call.Value.Type()) == "Listener":
+			return "listener.Close"
+		case fieldCall(call) == "recvCancel":
+			return "recvCancel"
+		case fieldCall(call) == "cancel":
+			return "cancel"
+		case id.is("time", "", "AfterFunc"):
+			return "AfterFunc"
+		case id.is("sync", "WaitGroup", "Wait"):
+			return "wg.Wait"
+		}
+		return ""
 	}
-	for _, in := range sd.Blocks[0].Instrs {
+	var straight []*ssa.BasicBlock
+	if len(sd.Blocks) == 1 || (len(sd.Blocks) == 2 && sd.Recover != nil) {
+		straight = sd.Blocks[:1]
+	} else {
+		paths, okPaths := enumeratePaths(sd, 512)
+		if !okPaths || len(paths) == 0 {
+			r.Unk("C16.H3", "kmipserver.Server.Shutdown/order", sd.Pos(), "Shutdown has too many paths to enumerate")
+			return
+		}
+		want := "listener.Close,recvCancel,AfterFunc,wg.Wait,cancel"
+		var longest cfgPath
+		for _, path := range paths {
+			var ms []string
+			for _, b := range path {
+				for _, in := range b.Instrs {
+					if call, ok := in.(*ssa.Call); ok {
+						if m := classify(call); m != "" {
+							ms = append(ms, m)
+						}
+					}
+				}
+			}
+			if got := strings.Join(ms, ","); got != want {
+				r.Bad("C16.H3", "kmipserver.Server.Shutdown/order", sd.Pos(), "a path through Shutdown runs %s; required on every path: listener.Close -> recvCancel -> AfterFunc -> wg.Wait -> cancel (returning before Wait leaves goroutines running; cancelling before Wait kills in-flight handlers instead of draining them)", strings.ReplaceAll(got, ",", " -> "))
+				return
+			}
+			if len(path) > len(longest) {
+				longest = path
+			}
+		}
+		straight = longest
+	}
+	for _, in := range func() []ssa.Instruction {
+		var all []ssa.Instruction
+		for _, b := range straight {
+			all = append(all, b.Instrs...)
+		}
+		return all
+	}() {
 		call, ok := in.(*ssa.Call)
 		if !ok {
 			continue
